@@ -240,7 +240,11 @@ def decompose_and_order(graph, component, component_name, bo_start=0):
         inside_nodes.update(bc_inside_nodes)
 
         if len(bc_inside_nodes) == 0:
-            assert len(bc_end_nodes) == 2
+            if len(bc_end_nodes) != 2:
+                logger.warning(
+                    f"Error: In Chromosome {component_name}, we found a biconnected component made only of {len(bc_end_nodes)} articulation points. Skipping this chromosome"
+                )
+                return None, None, None, None, None
             node1, node2 = tuple(bc_end_nodes)
             scaffold_graph.add_edge(node1, "+", node2, "+", 0)
 
@@ -282,7 +286,11 @@ def decompose_and_order(graph, component, component_name, bo_start=0):
         node_name for node_name in traversal if scaffold_node_types[node_name] == "s"
     ]
     # check that all scaffold nodes carry the same sequence name (SN), i.e. all came for the linear reference
-    assert len(set(new_graph[n].tags["SN"] for n in traversal_scaffold_only)) == 1
+    if len(set(new_graph[n].tags["SN"] for n in traversal_scaffold_only)) != 1:
+        logger.warning(
+            f"Error: In Chromosome {component_name}, the scaffold nodes do not all carry the same SN tag. Skipping this chromosome"
+        )
+        return None, None, None, None, None
     # I save tags as key:(type, value), so "SO":(i, '123')
     coordinates = list(int(new_graph[n].tags["SO"][1]) for n in traversal_scaffold_only)
 
